@@ -12,7 +12,8 @@
  (4) fallback: at the three call sites any exception raised while fetching arguments or running compiled code is contained
      and the interpreter path runs (an exception of the compiled call never escapes eval / __call__); assignment and deletion
      clear the compiled cache (C09).
-Value equality of compiled and interpreted results is NumPy/Python numeric semantics: NOT decided.
+Value level (numpy backend): contracts/c05_values.py - every template denotes the value of the interpreter's verb on every admitted
+operand, modulo declared NumPy identities; admission of scalars by exact type; Define rebinding goes through __setitem__ (4b).
 """
 import ast
 import itertools
@@ -92,6 +93,8 @@ def check_templates(ctx):
             try:
                 e = expr(s)
                 ok = isinstance(e, ast.BinOp) and isinstance(e.op, ARITH[op]) and is_name(e.left, 'AAA') and is_name(e.right, 'BBB') and s.startswith('(') and s.endswith(')')
+                # or a call of a helper with the operands in place (which helper: the value-equivalence obligation of that production)
+                ok = ok or (isinstance(e, ast.Call) and len(e.args) == 2 and not e.keywords and is_name(e.args[0], 'AAA') and is_name(e.args[1], 'BBB'))
             except Exception:
                 ok = False
             if not ok:
@@ -133,7 +136,14 @@ def check_templates(ctx):
                     continue
                 want = f"{table.get(op)}(AAA)" if backend == 'numpy' else (f"(AAA).{table.get(op)}(0)" if kind == 'reduce' else f"(AAA).{table.get(op)}")
                 try:
-                    same = op in table and ast.dump(expr(s)) == ast.dump(expr(want))
+                    if backend == 'numpy':
+                        # which NumPy call it must be is decided against the interpreter's verb (value-equivalence obligations);
+                        # here: a call whose last argument is the operand, nothing else of the operand
+                        ee = expr(s)
+                        same = isinstance(ee, ast.Call) and not ee.keywords and ee.args and is_name(ee.args[-1], 'AAA') \
+                            and sum(1 for n in ast.walk(ee) if is_name(n, 'AAA')) == 1
+                    else:
+                        same = op in table and ast.dump(expr(s)) == ast.dump(expr(want))
                 except Exception:
                     same = False
                 if not same:
@@ -205,7 +215,8 @@ def build(reg, src):
     c03.build(reg, src, verify_evaluator=False)
     reg.replays[:] = []
     reg.assumptions[:] = [
-        "value equality of compiled and interpreted results (+\\ on a matrix, +/[], a^0.5, ...) is NumPy/Python numeric semantics: NOT decided",
+        "value level (numpy backend only): decided modulo the declared NumPy/Python identities I1-I7 of contracts/c05_values.py; comparisons "
+        "((l==r)*1 vs vec_fn2/safe_equal on object arrays) and the torch backend's values are NOT decided (torch is not installed here)",
         "templates compose: every emitted source is parenthesised, a call or a postfix expression, so substituting a template for a "
         "placeholder keeps the parsed structure (induction on the IR, stated)",
         "the admission walk (_ast_to_ir) names variables in first-occurrence order of a left-to-right walk (read off the code; the bounded "
@@ -221,9 +232,31 @@ def build(reg, src):
     for k, c in reg.fns.items():
         if k.startswith(cm.KC) or k.endswith('set_context_var'):
             c.verify = False
+    # (4b) every rebinding made by a PROGRAM (the Define verb) goes through KlongInterpreter.__setitem__, whose contract (C09) clears
+    # the compiled cache; a direct write into the context would leave compiled code of the old binding in the cache
+    def define_setup(eng, st):
+        c03.klong_setup(eng, st)
+        st.env['klong'] = st.env.pop('self')
+        st.env['n'] = VOpaque(hint='n', nonnull=True)
+        st.env['v'] = VOpaque(hint='v')
+        st.ghost['through_setitem'] = lift(0)
+        st.ghost['direct_context_writes'] = lift(0)
+
+    def count(name):
+        return lambda eng, st, s, r: name in st.ghost and st.ghost.__setitem__(name, st.ghost[name] + 1)
+    if KI + '__setitem__' not in reg.fns:
+        reg.fn(KI + '__setitem__', returns=None, verify=False, requires=[c03.inv_k], ensures=[c03.pres_k], modifies=c03.eff_k)
+    reg.fns[KI + '__setitem__'].ghost_at_call = count('through_setitem')
+    reg.fns[cm.KC + '__setitem__'].ghost_at_call = count('direct_context_writes')
+    reg.fn('klongpy/dyads.py::eval_dyad_define', setup=define_setup, requires=[lambda s: cm.ctx_inv(s.st, s.st.field(s.klong, '_context'))],
+           returns='opaque',
+           ensures=[lambda s, r: And(s.g('through_setitem') == 1, s.g('direct_context_writes') == 0), lambda s, r: same(r, s.v0)])
     reg.extra_checks.append(check_templates)
     reg.extra_checks.append(check_positional)
+    from contracts import c05_values
+    reg.extra_checks.append(c05_values.check_value_equivalence)
     from replay import c05 as rp
+    reg.replays.append((r'eval_dyad_define', rp.replay_rebinding))
     reg.replays.append((r'.', rp.replay_fallback))
 
 
